@@ -629,103 +629,6 @@ theorem send_segStep {s : End} {base fa k : Nat} {mss cap port : Nat} {t' : Tcb}
           exact ⟨rfl, hwr, by rw [hnxt, htot]⟩
     · cases hs
 
-/-- A persist probe keeps I1 and satisfies I2: it is the first unsent byte (a slice of the accepted
-    stream at `snd_nxt`) or the FIN, and only `snd_max` moves. -/
-theorem send_probe {s : End} {base fa k : Nat} (cap port : Nat) (h : SendInv s base fa k) (hnw : NoWrap s)
-    (hrcv : s.tcb.rcvNxt < M32) (hc : s.tcb.persistCandidate = true) :
-    SendInv { s with tcb := s.tcb.probed } base fa k ∧ SegOk s (s.tcb.probeSeg cap port) := by
-  unfold NoWrap at hnw
-  obtain ⟨hiss, hfa, huna, hnxt, hbound, hfq, hbuf, hfin, hfack, ⟨km, hm1, hm2, hm3, hm4⟩⟩ := h
-  unfold Tcb.persistCandidate at hc
-  simp only [Bool.and_eq_true, beq_iff_eq, Bool.or_eq_true, Bool.not_eq_true'] at hc
-  obtain ⟨⟨⟨_, _⟩, hidle⟩, hpend⟩ := hc
-  have hk0 : k = 0 := by
-    rw [huna, hnxt] at hidle
-    have := wadd_inj _ _ _ (by omega) (by omega) hidle
-    omega
-  subst hk0
-  have hnxtlt : s.tcb.sndNxt < M32 := by rw [hnxt]; exact wadd_lt _ _
-  -- the new `snd_max`
-  have hmax : ∀ (hroom : base + fa + 1 ≤ s.acc.length + 1)
-      (hq : base + fa + 1 = s.acc.length + 1 → s.tcb.finSeq.isSome = true),
-      MaxInv { s with tcb := s.tcb.probed } base fa 0 := by
-    intro hroom hq
-    unfold Tcb.probed
-    by_cases heq : s.tcb.sndMax = s.tcb.sndUna
-    · have hkm : km = 0 := by
-        rw [hm2, huna] at heq
-        have := wadd_inj _ _ _ (by omega) (by omega) heq
-        omega
-      refine ⟨1, by omega, ?_, hroom, hq⟩
-      show (if (s.tcb.sndMax == s.tcb.sndUna) = true then wadd s.tcb.sndNxt 1 else s.tcb.sndMax) = _
-      rw [if_pos (by simpa using heq), hnxt, wadd_wadd]
-    · refine ⟨km, hm1, ?_, hm3, hm4⟩
-      show (if (s.tcb.sndMax == s.tcb.sndUna) = true then wadd s.tcb.sndNxt 1 else s.tcb.sndMax) = _
-      rw [if_neg (by simpa using heq)]
-      exact hm2
-  cases hsb : s.tcb.sendBuf with
-  | cons b rest =>
-    -- data probe
-    rcases hbuf with ⟨hb1, hb2⟩ | ⟨_, hb2⟩
-    rotate_left
-    · rw [hb2] at hsb; cases hsb
-    have hlen : 0 < s.acc.length - base := by
-      have := congrArg List.length hb1
-      rw [hsb] at this
-      simp only [List.length_cons, List.length_drop] at this
-      omega
-    have hfa0 : fa = 0 := by
-      rcases Nat.lt_or_ge fa 1 with h | h
-      · omega
-      · have : fa = 1 := by omega
-        have := (hfack this).1
-        omega
-    subst hfa0
-    refine ⟨⟨hiss, hfa, huna, hnxt, hbound, hfq, Or.inl ⟨hb1, hb2⟩, hfin, hfack, hmax (by omega) (fun hq => by omega)⟩, ?_⟩
-    refine ⟨hnxtlt, hrcv, ?_, ?_⟩
-    · intro _
-      have hpl : (s.tcb.probeSeg cap port).payload.length = 1 := by
-        show (List.take 1 s.tcb.sendBuf).length = 1
-        rw [hsb]; simp
-      refine ⟨base, by show s.tcb.sndNxt = _; simpa using hnxt, ?_, ?_⟩
-      · rw [hpl]; omega
-      · rw [hpl]
-        show List.take 1 s.tcb.sendBuf = _
-        rw [hb1]
-    · intro hf
-      have : (s.tcb.probeSeg cap port).flags.fin = s.tcb.sendBuf.isEmpty := rfl
-      rw [this, hsb] at hf
-      cases hf
-  | nil =>
-    -- FIN probe
-    rw [hsb] at hpend
-    have hfp : s.tcb.finPending = true := by
-      rcases hpend with hp | hp
-      · simp at hp
-      · exact hp
-    unfold Tcb.finPending at hfp
-    split at hfp
-    rotate_left
-    · cases hfp
-    rename_i fs hfs
-    obtain ⟨hfs1, hwr⟩ := hfin fs hfs
-    simp only [beq_iff_eq] at hfp
-    have htot : base + fa + 0 = s.acc.length := by
-      rw [hnxt, hfs1] at hfp
-      exact wadd_inj _ _ _ (by omega) (by omega) hfp
-    refine ⟨⟨hiss, hfa, huna, hnxt, hbound, hfq, hbuf, hfin, hfack, hmax (by omega) (fun _ => by simp [hfs])⟩, ?_⟩
-    refine ⟨hnxtlt, hrcv, ?_, ?_⟩
-    · intro hne
-      have : (s.tcb.probeSeg cap port).payload = List.take 1 s.tcb.sendBuf := rfl
-      rw [this, hsb] at hne
-      exact absurd rfl hne
-    · intro _
-      refine ⟨?_, hwr, ?_⟩
-      · show List.take 1 s.tcb.sendBuf = []
-        rw [hsb]; rfl
-      · show s.tcb.sndNxt = _
-        rw [hnxt]; exact congrArg (wadd s.iss) htot
-
 theorem send_segLoop {s : End} (mss cap port : Nat) (fuel : Nat) (t : Tcb) (acc : List Seg)
     (hnw : NoWrap s) (hrcv : t.rcvNxt < M32) (hwr : t.wrClosed = s.tcb.wrClosed)
     (h : ∃ base fa k, SendInv { s with tcb := t } base fa k)
